@@ -5,6 +5,7 @@ import (
 	"fmt"
 	"io"
 	"os"
+	"path/filepath"
 	"time"
 
 	"github.com/schollz/progressbar/v3"
@@ -143,6 +144,10 @@ You can provide input either as a file (as the first argument) or by piping logs
 			}
 			if encrypt && encryptionKeyFile == "" {
 				fmt.Fprintln(os.Stderr, "Error: --encrypt needs a key file; --encryptionKeyFile (-q) must not be empty.")
+				os.Exit(1)
+			}
+			if encrypt && outputFile != "" && sameFile(encryptionKeyFile, outputFile) {
+				fmt.Fprintln(os.Stderr, "Error: --outputFile and --encryptionKeyFile name the same file; writing the output would destroy the key.")
 				os.Exit(1)
 			}
 			if len(args) == 1 {
@@ -446,6 +451,19 @@ Extract the last 7 days if not provided`
 		// Cobra already prints the error, so we don't need to double-print it.
 		os.Exit(1)
 	}
+}
+
+// sameFile reports whether two paths name the same file: the same existing file (also through
+// links), or - when one of them does not exist yet - the same absolute path.
+func sameFile(a, b string) bool {
+	if ai, err := os.Stat(a); err == nil {
+		if bi, err := os.Stat(b); err == nil {
+			return os.SameFile(ai, bi)
+		}
+	}
+	absA, errA := filepath.Abs(a)
+	absB, errB := filepath.Abs(b)
+	return errA == nil && errB == nil && absA == absB
 }
 
 // countLines returns the number of lines in a file using a FileReader.
